@@ -289,6 +289,10 @@ async fn body(sc: &FsSc, prop: &str) -> Obs {
 	}
 	fakewatcher::set_call_hook(None);
 	main.abort();
+	// break the Config <-> handler reference cycles (see evh.rs)
+	wx.config.on_error(|_| {});
+	wx.config.on_action(|a| a);
+	w(|x| x.config = None);
 	let calls: Vec<String> = fakewatcher::with(|f| f.calls.iter().map(fakewatcher::render).collect());
 	let (log, violations, qc) = w(|x| (std::mem::take(&mut x.log), std::mem::take(&mut x.violations), x.quiescent_checks));
 	let mut log = canonical_by(log, " errh PathRemove ");
